@@ -81,6 +81,26 @@ Theorem C04_documented_kinds :
 Proof. exact documented_kind_fixpoint. Qed.
 Print Assumptions C04_documented_kinds.
 
+(* EVERY column class of the regenerated class table (= get_column_types(): abstract
+   bases, StringIntegerOrFloatColumn, plain MafColumnRecord, enum and list classes no
+   layout uses, ...) except the refuted SequenceOfNullableYesOrNo is strict, hence
+   C04_field_fixpoint applies to it.  (For the abstract EnumColumn /
+   SequenceOfValuesColumn no text is ever accepted; MafCustomColumnRecord builds None.) *)
+Theorem C04_every_column_class_is_strict :
+  forall n, In n (column_class_names class_table ["SequenceOfNullableYesOrNo"]) ->
+    exists r, resolve class_table (CSrc n) = Some r /\ class_strict_ok r = true.
+Proof. exact column_class_fixpoint. Qed.
+Print Assumptions C04_every_column_class_is_strict.
+
+(* ... and so is the class synthesised by mixing RequireNullValue over ANY column class
+   (extend_class = type(name, (RequireNullValue, base), {}), resolved by C3), whether or
+   not a shipped scheme does so; over SequenceOfNullableYesOrNo too (only [] validates). *)
+Theorem C04_every_must_be_null_mix_is_strict :
+  forall n, In n (column_class_names class_table ["RequireNullValue"]) ->
+    exists r, resolve class_table (CMix (CSrc "RequireNullValue") (CSrc n)) = Some r /\ class_strict_ok r = true.
+Proof. exact rnv_mix_fixpoint. Qed.
+Print Assumptions C04_every_must_be_null_mix_is_strict.
+
 (* (2) The real layouts.  Every column class of every layout built from the
    regenerated definitions (synthesised RequireNullValue mixins included)
    resolves, by C3 over the regenerated class table, to a custom class for which
@@ -165,13 +185,17 @@ Proof. vm_compute. reflexivity. Qed.
 Example strict_layouts : strict_layout_names = ["gdc-1.0.0"].
 Proof. vm_compute. reflexivity. Qed.
 
-(* of the 48 classes of the regenerated class table, 42 are strict; the rest are
-   the abstract bases / bare mixins (never a column class) and the refuted class *)
+(* of the 48 classes of the regenerated class table the field theorem applies to all
+   but three: the two bare mixins that are not column classes at all (not subclasses
+   of MafColumnRecord: get_column_types() does not return them) and the refuted class *)
 Example non_strict_source_classes :
   map ci_name (filter (fun ci => negb (class_strict_ok (get_rcls (resolve class_table (CSrc (ci_name ci)))))) class_table)
-  = ["MafCustomColumnRecord"; "NullableEmptyStringIsNone"; "NullableEmptyStringIsEmptyList"; "EnumColumn";
-     "SequenceOfValuesColumn"; "SequenceOfNullableYesOrNo"].
-Proof. vm_compute. reflexivity. Qed.
+  = ["NullableEmptyStringIsNone"; "NullableEmptyStringIsEmptyList"; "SequenceOfNullableYesOrNo"]
+  /\ filter (fun n => negb (is_column_type class_table n)) (map ci_name class_table)
+  = ["NullableEmptyStringIsNone"; "NullableEmptyStringIsEmptyList"]
+  /\ length (column_class_names class_table ["SequenceOfNullableYesOrNo"]) = 45%nat
+  /\ length (column_class_names class_table ["RequireNullValue"]) = 45%nat.
+Proof. vm_compute. repeat split; reflexivity. Qed.
 
 (* the oracle laws are satisfiable: an oracle that knows two floats and one uuid *)
 Definition O_demo : oracles :=
